@@ -1,2 +1,356 @@
-import Splipy.Model.Basis
-/-! Property theorems for C01 (placeholder while the proofs are being built). -/
+import Splipy.Lemmas.EvalRow
+import Mathlib.Data.Rat.Floor
+import Mathlib.Tactic.NormNum
+import Mathlib.Tactic.IntervalCases
+
+/-!
+# Property C01: `BSplineBasis.evaluate` returns the mathematically defined B-splines
+
+`b.evaluate tol t d fromRight` is the executable model of `BSplineBasis.evaluate(t, d, from_right)`
+for one parameter value (`tol` = `state.knot_tolerance`).  `B`/`dB` are the specification
+(Cox–de Boor recursion and its derivative recursion, `Splipy/Spec/BSpline.lean`).
+
+`b.ExactAt tol t` says that `t` is a knot or at least `tol` away from every knot, i.e. all
+tolerance comparisons made by the code are exact comparisons.
+-/
+
+open Splipy
+
+variable {K : Type} [Field K] [LinearOrder K] [IsStrictOrderedRing K] [FloorRing K]
+
+/-- Non-periodic basis, `t` in the domain (except the start approached from the left): entry `c`
+of the row is the `d`-th one-sided derivative of the `c`-th B-spline; the side is the requested
+one, except at the domain end, where it is always the limit from inside. -/
+theorem C01_value_deriv_open {b : Basis K} (hv : b.Valid) (hper : b.periodic = -1) {tol t : K}
+    (htol : 0 < tol) (hex : b.ExactAt tol t) (h1 : b.start ≤ t) (h2 : t ≤ b.stop)
+    {fromRight : Bool} (hnot : ¬ (t = b.start ∧ fromRight = false))
+    {d : ℕ} (hd : d < b.order) {c : ℕ} (hc : c < b.numFunctions) :
+    (b.evaluate tol t d fromRight).getD c 0
+      = dB (effSide b t fromRight) b.kn (b.order - 1) c d t := by
+  rw [evaluate_of_exact b htol hex hd, wrapT_nonperiodic hper,
+    evalAt_toDense_inside hv htol hd fromRight (hex.start hv) (hex.stop hv) h1 h2 hnot hc]
+  rw [Basis.numFunctions_of_nonperiodic hper] at hc ⊢
+  exact sum_filter_mod_self _ _ _ hc
+
+/-- Periodic basis, `t` in the domain: entry `c` is the sum of all wrapped images (all `i` with
+`i ≡ c` modulo `numFunctions`) of the one-sided derivative at the effective point/side
+`periodicEff b t fromRight` (left limit at the seam `start` = left limit at `stop`). -/
+theorem C01_value_deriv_periodic {b : Basis K} (hv : b.Valid) (hper : 0 ≤ b.periodic)
+    {tol t : K} (htol : 0 < tol) (hex : b.ExactAt tol t) (h1 : b.start ≤ t) (h2 : t ≤ b.stop)
+    (fromRight : Bool) {d : ℕ} (hd : d < b.order) {c : ℕ} (hc : c < b.numFunctions) :
+    (b.evaluate tol t d fromRight).getD c 0
+      = ∑ i ∈ (Finset.range b.nAll).filter (fun i => i % b.numFunctions = c),
+          dB (periodicEff b t fromRight).2 b.kn (b.order - 1) i d (periodicEff b t fromRight).1 := by
+  obtain ⟨e1, e2, e3, e4, e5, e6⟩ := periodicEff_spec hv hex fromRight h1 h2
+  rw [evaluate_of_exact b htol hex hd, wrapT_periodic_inside hv hper htol hex fromRight h1 h2,
+    evalAt_toDense_inside hv htol hd fromRight e1 e2 e3 e4 e5 hc, e6]
+
+/-- Periodic basis, arbitrary real parameter `u`: the row is the one of the wrapped point. -/
+theorem C01_value_deriv_periodic_any_real {b : Basis K} (hv : b.Valid) (hper : 0 ≤ b.periodic)
+    {tol u : K} (htol : 0 < tol) (hex : b.ExactAt tol u) (hexw : b.ExactAt tol (b.wrap u))
+    (fromRight : Bool) {d : ℕ} (hd : d < b.order) {c : ℕ} (hc : c < b.numFunctions) :
+    (b.evaluate tol u d fromRight).getD c 0
+      = ∑ i ∈ (Finset.range b.nAll).filter (fun i => i % b.numFunctions = c),
+          dB (periodicEff b (b.wrap u) fromRight).2 b.kn (b.order - 1) i d
+            (periodicEff b (b.wrap u) fromRight).1 := by
+  rw [evaluate_wrap hv hper htol hex hexw]
+  exact C01_value_deriv_periodic hv hper htol hexw (b.wrap_mem hv u).1 (b.wrap_mem hv u).2
+    fromRight hd hc
+
+/-- Non-periodic basis: approaching the start of the domain from the left gives the zero row. -/
+theorem C01_start_from_left {b : Basis K} (hv : b.Valid) (hper : b.periodic = -1) {tol : K}
+    (htol : 0 < tol) (d : ℕ) :
+    b.evaluate tol b.start d false = Array.replicate b.numFunctions 0 := by
+  by_cases hd : b.order ≤ d
+  · exact evaluate_high b tol _ hd false
+  · unfold Basis.evaluate
+    simp only []
+    rw [if_neg hd, b.start_eq, snap_knot hv htol hv.order_sub_lt, evalRow_eq,
+      wrapT_nonperiodic hper, ← b.start_eq, evalAt_start_left b htol, toDense_zeroRow]
+
+/-- Non-periodic basis: outside the domain the row is zero. -/
+theorem C01_outside {b : Basis K} (hper : b.periodic = -1) {tol t : K}
+    (htol : 0 < tol) (hex : b.ExactAt tol t) (hout : t < b.start ∨ b.stop < t) (d : ℕ)
+    (fromRight : Bool) :
+    b.evaluate tol t d fromRight = Array.replicate b.numFunctions 0 := by
+  by_cases hd : b.order ≤ d
+  · exact evaluate_high b tol _ hd fromRight
+  · rw [evaluate_of_exact b htol hex (by omega), wrapT_nonperiodic hper,
+      evalAt_outside b tol d fromRight hout, toDense_zeroRow]
+
+/-- Derivatives of order `≥ order` : the code returns the zero row (no hypotheses at all) … -/
+theorem C01_high_derivative_zero (b : Basis K) (tol t : K) {d : ℕ} (hd : b.order ≤ d)
+    (fromRight : Bool) :
+    b.evaluate tol t d fromRight = Array.replicate b.numFunctions 0 :=
+  evaluate_high b tol t hd fromRight
+
+omit [IsStrictOrderedRing K] [FloorRing K] in
+/-- … and so does the specification. -/
+theorem C01_high_derivative_zero_spec (b : Basis K) (hp : 1 ≤ b.order) (s : Side) (t : K)
+    {d : ℕ} (hd : b.order ≤ d) (i : ℕ) : dB s b.kn (b.order - 1) i d t = 0 :=
+  dB_eq_zero_of_gt s b.kn (b.order - 1) i d t (by omega)
+
+/-- The basis functions are non-negative (every exact parameter; for periodic bases the wrapped
+parameter has to be exact as well). -/
+theorem C01_nonneg {b : Basis K} (hv : b.Valid) {tol t : K} (htol : 0 < tol)
+    (hex : b.ExactAt tol t) (hexw : 0 ≤ b.periodic → b.ExactAt tol (b.wrap t))
+    (fromRight : Bool) (c : ℕ) :
+    0 ≤ (b.evaluate tol t 0 fromRight).getD c 0 := by
+  have hp := hv.order_pos
+  by_cases hper : 0 ≤ b.periodic
+  · have hw := hexw hper
+    obtain ⟨e1, e2, -, -, -, -⟩ :=
+      periodicEff_spec hv hw fromRight (b.wrap_mem hv t).1 (b.wrap_mem hv t).2
+    rw [evaluate_wrap hv hper htol hex hw, evaluate_of_exact b htol hw (by omega),
+      wrapT_periodic_inside hv hper htol hw fromRight (b.wrap_mem hv t).1 (b.wrap_mem hv t).2]
+    exact evalAt_toDense_nonneg hv htol (by omega) fromRight e1 e2 c
+  · have hper' : b.periodic = -1 := by have := hv.periodic_ge; omega
+    rw [evaluate_of_exact b htol hex (by omega), wrapT_nonperiodic hper']
+    exact evalAt_toDense_nonneg hv htol (by omega) fromRight (hex.start hv) (hex.stop hv) c
+
+/-- Partition of unity on the domain (for non-periodic bases except the start from the left). -/
+theorem C01_partition_of_unity {b : Basis K} (hv : b.Valid) {tol t : K} (htol : 0 < tol)
+    (hex : b.ExactAt tol t) (h1 : b.start ≤ t) (h2 : t ≤ b.stop) (fromRight : Bool)
+    (hnot : b.periodic = -1 → ¬ (t = b.start ∧ fromRight = false)) :
+    ∑ c ∈ Finset.range b.numFunctions, (b.evaluate tol t 0 fromRight).getD c 0 = 1 := by
+  have hp := hv.order_pos
+  by_cases hper : 0 ≤ b.periodic
+  · obtain ⟨e1, e2, e3, e4, e5, -⟩ := periodicEff_spec hv hex fromRight h1 h2
+    rw [evaluate_of_exact b htol hex (by omega),
+      wrapT_periodic_inside hv hper htol hex fromRight h1 h2]
+    exact evalAt_toDense_partition hv htol fromRight e1 e2 e3 e4 e5
+  · have hper' : b.periodic = -1 := by have := hv.periodic_ge; omega
+    rw [evaluate_of_exact b htol hex (by omega), wrapT_nonperiodic hper']
+    exact evalAt_toDense_partition hv htol fromRight (hex.start hv) (hex.stop hv) h1 h2
+      (hnot hper')
+
+/-- Partition of unity for periodic bases at an arbitrary real parameter. -/
+theorem C01_partition_of_unity_periodic_any_real {b : Basis K} (hv : b.Valid)
+    (hper : 0 ≤ b.periodic) {tol u : K} (htol : 0 < tol) (hex : b.ExactAt tol u)
+    (hexw : b.ExactAt tol (b.wrap u)) (fromRight : Bool) :
+    ∑ c ∈ Finset.range b.numFunctions, (b.evaluate tol u 0 fromRight).getD c 0 = 1 := by
+  rw [evaluate_wrap hv hper htol hex hexw]
+  exact C01_partition_of_unity hv htol hexw (b.wrap_mem hv u).1 (b.wrap_mem hv u).2 fromRight
+    (fun h => by rw [h] at hper; exact absurd hper (by decide))
+
+/-- If distinct knot values are at least `tol` apart, evaluation at ANY parameter `t` is evaluation
+at the snapped parameter, and the snapped parameter is exact — so all theorems of this file apply
+to `snap b tol t`. -/
+theorem C01_evaluate_snap {b : Basis K} (hv : b.Valid) {tol : K} (htol : 0 < tol)
+    (hsep : b.Separated tol) (t : K) (d : ℕ) (fromRight : Bool) :
+    b.evaluate tol t d fromRight = b.evaluate tol (snap b tol t) d fromRight ∧
+      b.ExactAt tol (snap b tol t) :=
+  ⟨evaluate_snap hv htol hsep t d fromRight, exactAt_snap hv hsep t⟩
+
+omit [IsStrictOrderedRing K] in
+/-- The dense and the sparse result forms agree. -/
+theorem C01_sparse_eq_dense (b : Basis K) (tol t : K) {d : ℕ} (hd : d < b.order)
+    (fromRight : Bool) :
+    (b.evaluateSparse tol t d fromRight).toDense b.numFunctions = b.evaluate tol t d fromRight := by
+  unfold Basis.evaluateSparse Basis.evaluate
+  simp only []
+  rw [if_neg (by omega)]
+
+/-- Periodic bases can be evaluated at any real: shifting the parameter by whole periods does not
+change the row (`t` and the shifted parameter must not be the domain end `stop` itself, whose row
+is the left limit, whereas `stop + m·T` wraps to `start`). -/
+theorem C01_periodic_any_real {b : Basis K} (hv : b.Valid) (hper : 0 ≤ b.periodic) {tol t : K}
+    (htol : 0 < tol) (m : ℤ) (hex : b.ExactAt tol t)
+    (hex' : b.ExactAt tol (t + m * (b.stop - b.start)))
+    (h1 : t ≠ b.stop) (h2 : t + m * (b.stop - b.start) ≠ b.stop) (d : ℕ) (fromRight : Bool) :
+    b.evaluate tol (t + m * (b.stop - b.start)) d fromRight = b.evaluate tol t d fromRight :=
+  evaluate_add_int_mul hv hper htol m hex hex' h1 h2 d fromRight
+
+
+/-! ## Non-vacuity: concrete bases over `ℚ` meeting the hypotheses of every theorem -/
+
+/-- Open quadratic basis with a double interior knot. -/
+def C01_exOpen : Basis ℚ := ⟨3, #[0, 0, 0, 1, 2, 2, 3, 3, 3], -1⟩
+
+/-- Periodic (`C^0`) quadratic basis. -/
+def C01_exPer : Basis ℚ := ⟨3, #[-1, 0, 0, 1, 2, 3, 3, 4], 0⟩
+
+theorem C01_exOpen_valid : C01_exOpen.Valid where
+  order_pos := by decide
+  size_ge := by decide
+  sorted := by
+    intro i hi
+    have hi' : i + 1 < 9 := hi
+    have hi'' : i < 8 := by omega
+    interval_cases i <;> norm_num [Basis.kn, C01_exOpen]
+  periodic_ge := by decide
+  periodic_le := by decide
+  start_lt_stop := by norm_num [Basis.start, Basis.stop, Basis.kn, C01_exOpen]
+  ghosts := fun h => absurd h (by decide)
+
+theorem C01_exPer_valid : C01_exPer.Valid where
+  order_pos := by decide
+  size_ge := by decide
+  sorted := by
+    intro i hi
+    have hi' : i + 1 < 8 := hi
+    have hi'' : i < 7 := by omega
+    interval_cases i <;> norm_num [Basis.kn, C01_exPer]
+  periodic_ge := by decide
+  periodic_le := by decide
+  start_lt_stop := by norm_num [Basis.start, Basis.stop, Basis.kn, C01_exPer]
+  ghosts := by
+    intro _ i hi
+    have hi' : i + 4 < 8 := hi
+    have hi'' : i < 4 := by omega
+    interval_cases i <;>
+      norm_num [Basis.start, Basis.stop, Basis.kn, Basis.numFunctions, C01_exPer]
+
+theorem C01_exOpen_start : C01_exOpen.start = 0 := by
+  norm_num [Basis.start, Basis.kn, C01_exOpen]
+
+theorem C01_exOpen_stop : C01_exOpen.stop = 3 := by
+  norm_num [Basis.stop, Basis.kn, C01_exOpen]
+
+theorem C01_exPer_start : C01_exPer.start = 0 := by
+  norm_num [Basis.start, Basis.kn, C01_exPer]
+
+theorem C01_exPer_stop : C01_exPer.stop = 3 := by
+  norm_num [Basis.stop, Basis.kn, C01_exPer]
+
+/-- Exactness at an arbitrary rational that is at least `1/1000` away from the integers `-1 … 4`
+or equal to one of them is checked knot by knot. -/
+theorem C01_exOpen_exact_half : C01_exOpen.ExactAt (1/1000) (1/2) := by
+  intro i hi
+  have hi' : i < 9 := hi
+  interval_cases i <;> norm_num [Basis.kn, C01_exOpen, abs_of_nonneg, abs_of_neg]
+
+theorem C01_exOpen_exact_stop : C01_exOpen.ExactAt (1/1000) 3 := by
+  intro i hi
+  have hi' : i < 9 := hi
+  interval_cases i <;> norm_num [Basis.kn, C01_exOpen, abs_of_nonneg, abs_of_neg]
+
+theorem C01_exOpen_exact_four : C01_exOpen.ExactAt (1/1000) 4 := by
+  intro i hi
+  have hi' : i < 9 := hi
+  interval_cases i <;> norm_num [Basis.kn, C01_exOpen, abs_of_nonneg, abs_of_neg]
+
+theorem C01_exPer_exact_half : C01_exPer.ExactAt (1/1000) (1/2) := by
+  intro i hi
+  have hi' : i < 8 := hi
+  interval_cases i <;> norm_num [Basis.kn, C01_exPer, abs_of_nonneg, abs_of_neg]
+
+theorem C01_exPer_exact_zero : C01_exPer.ExactAt (1/1000) 0 := by
+  intro i hi
+  have hi' : i < 8 := hi
+  interval_cases i <;> norm_num [Basis.kn, C01_exPer, abs_of_nonneg, abs_of_neg]
+
+theorem C01_exPer_exact_seven_halves : C01_exPer.ExactAt (1/1000) (7/2) := by
+  intro i hi
+  have hi' : i < 8 := hi
+  interval_cases i <;> norm_num [Basis.kn, C01_exPer, abs_of_nonneg, abs_of_neg]
+
+theorem C01_exPer_wrap : C01_exPer.wrap (7/2) = 1/2 := by
+  have h0 : C01_exPer.wrap (1/2) = 1/2 :=
+    C01_exPer.wrap_of_mem (by rw [C01_exPer_start]; norm_num) (by rw [C01_exPer_stop]; norm_num)
+  have h := C01_exPer.wrap_add_int_mul C01_exPer_valid (1/2) 1
+    (by rw [C01_exPer_stop]; norm_num) (by rw [C01_exPer_stop, C01_exPer_start]; norm_num)
+  rw [h0, C01_exPer_stop, C01_exPer_start] at h
+  rw [← h]
+  norm_num
+
+theorem C01_exOpen_separated : C01_exOpen.Separated (1/1000) := by
+  intro i j hi hj
+  have hi' : i < 9 := hi
+  have hj' : j < 9 := hj
+  interval_cases i <;> interval_cases j <;>
+    norm_num [Basis.kn, C01_exOpen, abs_of_nonneg, abs_of_neg]
+
+/-- C01_value_deriv_open: interior point, first derivative. -/
+example : (C01_exOpen.evaluate (1/1000) (1/2) 1 true).getD 2 0
+    = dB (effSide C01_exOpen (1/2) true) C01_exOpen.kn 2 2 1 (1/2) :=
+  C01_value_deriv_open C01_exOpen_valid rfl (by norm_num) C01_exOpen_exact_half
+    (by rw [C01_exOpen_start]; norm_num) (by rw [C01_exOpen_stop]; norm_num)
+    (by simp) (by decide) (by decide)
+
+/-- C01_value_deriv_open: the domain end, requested from the right (evaluated from the left). -/
+example : (C01_exOpen.evaluate (1/1000) 3 0 true).getD 5 0
+    = dB (effSide C01_exOpen 3 true) C01_exOpen.kn 2 5 0 3 :=
+  C01_value_deriv_open C01_exOpen_valid rfl (by norm_num) C01_exOpen_exact_stop
+    (by rw [C01_exOpen_start]; norm_num) (by rw [C01_exOpen_stop])
+    (by simp) (by decide) (by decide)
+
+/-- C01_value_deriv_periodic: the seam from the left. -/
+example : (C01_exPer.evaluate (1/1000) 0 1 false).getD 3 0
+    = ∑ i ∈ (Finset.range C01_exPer.nAll).filter (fun i => i % C01_exPer.numFunctions = 3),
+        dB (periodicEff C01_exPer 0 false).2 C01_exPer.kn 2 i 1 (periodicEff C01_exPer 0 false).1 :=
+  C01_value_deriv_periodic C01_exPer_valid (by decide) (by norm_num) C01_exPer_exact_zero
+    (by rw [C01_exPer_start]) (by rw [C01_exPer_stop]; norm_num) false (by decide) (by decide)
+
+/-- C01_value_deriv_periodic_any_real. -/
+example : (C01_exPer.evaluate (1/1000) (7/2) 0 true).getD 0 0
+    = ∑ i ∈ (Finset.range C01_exPer.nAll).filter (fun i => i % C01_exPer.numFunctions = 0),
+        dB (periodicEff C01_exPer (C01_exPer.wrap (7/2)) true).2 C01_exPer.kn 2 i 0
+          (periodicEff C01_exPer (C01_exPer.wrap (7/2)) true).1 :=
+  C01_value_deriv_periodic_any_real C01_exPer_valid (by decide) (by norm_num)
+    C01_exPer_exact_seven_halves (by rw [C01_exPer_wrap]; exact C01_exPer_exact_half) true
+    (by decide) (by decide)
+
+/-- C01_start_from_left. -/
+example : C01_exOpen.evaluate (1/1000) C01_exOpen.start 0 false
+    = Array.replicate C01_exOpen.numFunctions 0 :=
+  C01_start_from_left C01_exOpen_valid rfl (by norm_num) 0
+
+/-- C01_outside. -/
+example : C01_exOpen.evaluate (1/1000) 4 1 true = Array.replicate C01_exOpen.numFunctions 0 :=
+  C01_outside rfl (by norm_num) C01_exOpen_exact_four
+    (Or.inr (by rw [C01_exOpen_stop]; norm_num)) 1 true
+
+/-- C01_high_derivative_zero / C01_high_derivative_zero_spec. -/
+example : C01_exOpen.evaluate (1/1000) (1/2) 3 true
+    = Array.replicate C01_exOpen.numFunctions 0 :=
+  C01_high_derivative_zero C01_exOpen (1/1000) (1/2) (by decide) true
+
+example : dB .right C01_exOpen.kn 2 1 3 (1/2) = 0 :=
+  C01_high_derivative_zero_spec C01_exOpen (by decide) .right (1/2) (d := 3) (by decide) 1
+
+/-- C01_nonneg (non-periodic and periodic). -/
+example : 0 ≤ (C01_exOpen.evaluate (1/1000) (1/2) 0 true).getD 1 0 :=
+  C01_nonneg C01_exOpen_valid (by norm_num) C01_exOpen_exact_half
+    (fun h => absurd h (by decide)) true 1
+
+example : 0 ≤ (C01_exPer.evaluate (1/1000) (7/2) 0 false).getD 1 0 :=
+  C01_nonneg C01_exPer_valid (by norm_num) C01_exPer_exact_seven_halves
+    (fun _ => by rw [C01_exPer_wrap]; exact C01_exPer_exact_half) false 1
+
+/-- C01_partition_of_unity (non-periodic, and periodic at the seam from the left). -/
+example : ∑ c ∈ Finset.range C01_exOpen.numFunctions,
+    (C01_exOpen.evaluate (1/1000) (1/2) 0 false).getD c 0 = 1 :=
+  C01_partition_of_unity C01_exOpen_valid (by norm_num) C01_exOpen_exact_half
+    (by rw [C01_exOpen_start]; norm_num) (by rw [C01_exOpen_stop]; norm_num) false
+    (fun _ h => by rw [C01_exOpen_start] at h; norm_num at h)
+
+example : ∑ c ∈ Finset.range C01_exPer.numFunctions,
+    (C01_exPer.evaluate (1/1000) 0 0 false).getD c 0 = 1 :=
+  C01_partition_of_unity C01_exPer_valid (by norm_num) C01_exPer_exact_zero
+    (by rw [C01_exPer_start]) (by rw [C01_exPer_stop]; norm_num) false
+    (fun h => absurd h (by decide))
+
+/-- C01_partition_of_unity_periodic_any_real. -/
+example : ∑ c ∈ Finset.range C01_exPer.numFunctions,
+    (C01_exPer.evaluate (1/1000) (7/2) 0 true).getD c 0 = 1 :=
+  C01_partition_of_unity_periodic_any_real C01_exPer_valid (by decide) (by norm_num)
+    C01_exPer_exact_seven_halves (by rw [C01_exPer_wrap]; exact C01_exPer_exact_half) true
+
+/-- C01_evaluate_snap. -/
+example : C01_exOpen.evaluate (1/1000) (1/3) 1 true
+    = C01_exOpen.evaluate (1/1000) (snap C01_exOpen (1/1000) (1/3)) 1 true ∧
+      C01_exOpen.ExactAt (1/1000) (snap C01_exOpen (1/1000) (1/3)) :=
+  C01_evaluate_snap C01_exOpen_valid (by norm_num) C01_exOpen_separated (1/3) 1 true
+
+/-- C01_sparse_eq_dense. -/
+example : (C01_exOpen.evaluateSparse (1/1000) (1/2) 1 true).toDense C01_exOpen.numFunctions
+    = C01_exOpen.evaluate (1/1000) (1/2) 1 true :=
+  C01_sparse_eq_dense C01_exOpen (1/1000) (1/2) (by decide) true
+
+/-- C01_periodic_any_real. -/
+example : C01_exPer.evaluate (1/1000) (1/2 + (1 : ℤ) * (C01_exPer.stop - C01_exPer.start)) 1 true
+    = C01_exPer.evaluate (1/1000) (1/2) 1 true :=
+  C01_periodic_any_real C01_exPer_valid (by decide) (by norm_num) 1 C01_exPer_exact_half
+    (by rw [C01_exPer_stop, C01_exPer_start]; norm_num; exact C01_exPer_exact_seven_halves)
+    (by rw [C01_exPer_stop]; norm_num) (by rw [C01_exPer_stop, C01_exPer_start]; norm_num) 1 true
